@@ -898,6 +898,10 @@ End Policy.
    hypotheses H_*: to be proved per invariant with the symbolic executor), X holds together with the core
    invariant K after everything the main loop does in one pass (after the clock has been read).
    `allowed` restricts which processes may be the target of a start request (all of them, or all but one). *)
+(* the effects emitted above the process level *)
+Definition upper (e : effect) : Prop :=
+  match e with EAns _ _ | EAnsAll _ _ | ESup _ | EExitNow => True | _ => False end.
+
 Definition inert3 (g : world -> world) : Prop :=
   forall w, inertw w (g w) /\ sts (g w) = sts w /\ procs (g w) = procs w /\ now (g w) = now w /\
             out (g w) = out w /\ pend (g w) = pend w.
@@ -932,7 +936,7 @@ Definition xp {A} (P : world -> Prop) (m : Model.M A) : Prop :=
   forall w a w', K w -> X w -> P w -> m w = (Some a, w') -> X w'.
 Definition anyv {A} : A -> Prop := fun _ => True.
 
-Hypothesis X_emit : forall e w, nofork e -> X w -> X (set_out (e :: out w) w).
+Hypothesis X_emit : forall e w, upper e -> X w -> X (set_out (e :: out w) w).
 Hypothesis X_modw : forall w w', sts w' = sts w -> procs w' = procs w -> now w' = now w -> out w' = out w -> X w -> X w'.
 Hypothesis H_transition : forall j, xp (fun _ => True) (Model.transition U pconfs j).
 Hypothesis H_stop : forall j s, killable s = true -> xp (fun w => sts w j = s) (Model.stop U pconfs j).
@@ -986,7 +990,7 @@ Proof.
   eapply kx_bind; [apply H; left; reflexivity | intros _ _; apply IH; intros y Hy; apply H; right; exact Hy].
 Qed.
 
-Lemma kx_emit P e : nofork e -> kx P (emit e) anyv.
+Lemma kx_emit P e : upper e -> kx P (emit e) anyv.
 Proof.
   intros He w HK [HX HP] _. exists tt, (set_out (e :: out w) w). split; [reflexivity|].
   split; [eapply K_inert; [exact HK | repeat split; cbn; lia]|]. split; [|exact Logic.I].
@@ -1417,7 +1421,7 @@ Proof. unfold NS, obsN. intros <-. exact v_down. Qed.
 Lemma NS_quiet {A} (m : Model.M A) P : quiet (obsN i) m -> xp NS P m.
 Proof. intros Hq w a w' _ HX _ E. specialize (Hq w). rewrite E in Hq. unfold NS in *. cbn in Hq. congruence. Qed.
 
-Lemma NS_emit e w : nofork e -> NS w -> NS (set_out (e :: out w) w).
+Lemma NS_emit e w : upper e -> NS w -> NS (set_out (e :: out w) w).
 Proof. unfold NS, obsN. intros He <-. destruct e; cbn; try reflexivity. destruct He. Qed.
 Lemma NS_modw w w' : sts w' = sts w -> procs w' = procs w -> now w' = now w -> out w' = out w -> NS w -> NS w'.
 Proof. unfold NS, obsN. intros -> -> _ -> H. exact H. Qed.
@@ -1507,6 +1511,288 @@ Proof.
   rewrite E. cbn [snd]. unfold NS, obsN in HX. inversion HX. auto.
 Qed.
 
+(* ====================================================================== *)
+(* Part A3: the retry counter and the retry delay, at every boundary of every run.
+   R is the set of clock readings taken so far.  For every process: the failure counter is never negative;
+   in BACKOFF it is at least 1 and delay = t + backoff * U for a genuine reading t (the reading of the
+   failure, or a later, smaller one after a clock rollback: adjust_times). *)
+Definition bk_loc (U : Z) (R : Z -> Prop) (s : pstate) (p : proc) : Prop :=
+  0 <= backoff p /\ (s = BACKOFF -> 1 <= backoff p /\ R (delay p - backoff p * U)).
+Definition BKL (U : Z) (R : Z -> Prop) (w : world) : Prop :=
+  R (now w) /\ forall j, bk_loc U R (sts w j) (procs w j).
+
+Lemma BKL_mono U (R R' : Z -> Prop) w : (forall t, R t -> R' t) -> R' (now w) -> BKL U R w -> BKL U R' w.
+Proof.
+  intros HR Hn [_ H]. split; [exact Hn|]. intros j. destruct (H j) as [a b]. split; [exact a|].
+  intros Hs. destruct (b Hs). auto.
+Qed.
+
+Ltac bkleaf t :=
+  unfold bk_loc in *; pcbv;
+  split; [lia | let Hs := fresh "Hs" in intros Hs; try discriminate Hs;
+    (split; [lia |
+      first [ assumption
+            | match goal with |- ?R ?x => replace x with t by lia; assumption end ]])].
+
+Ltac bkstart p s HPI Hbk :=
+  pdestr p; destruct Hbk as [Hb0 Hb1]; pcbv_in Hb0; pcbv_in Hb1;
+  destruct s;
+  try (let H := fresh "H" in assert (H := Hb1 eq_refl); clear Hb1; destruct H as [Hb1 Hb2]);
+  pose proof HPI as (_ & _ & Hlive & Hdead); cbn [live_state dead_state] in Hlive, Hdead; pcbv_in Hlive; pcbv_in Hdead;
+  try specialize (Hlive eq_refl); try specialize (Hdead eq_refl); try subst.
+Ltac padj :=
+  repeat (lazymatch goal with
+          | |- @sx _ _ _ _ ?p _ _ _ _ =>
+            match p with context [if ?c then _ else _] => destruct c eqn:?; pcbv end
+          end).
+
+Section Backoff.
+Variable U : Z.
+Variable pconfs : list pconf.
+Variable gconfs : list gconf.
+Variable R : Z -> Prop.
+Notation cf := (Model.cf pconfs).
+Notation bk := (bk_loc U R).
+
+Definition bkpost {A} : spost A := fun _ s' p' _ => bk s' p'.
+
+Lemma transition_bk j s p o t md :
+  PI s p -> bk s p -> R t -> sx j (Model.transition U pconfs j) s p o t md bkpost.
+Proof.
+  intros HPI Hbk Ht. unfold bkpost. bkstart p s HPI Hbk.
+  all: unfold Model.transition, Model.spawn, Model.give_up, Model.kill; cbv zeta.
+  all: xstep; xstep; apply sx_rollback; cbn [adjust_times]; pcbv; padj.
+  all: xrun.
+  all: try solve [bkleaf t].
+  all: try xarith.
+Qed.
+
+Lemma spawn_bk j s p o t md :
+  PI s p -> bk s p -> R t -> spawnable s = true \/ s = STOPPING ->
+  sx j (Model.spawn U pconfs j) s p o t md bkpost.
+Proof.
+  intros HPI Hbk Ht Hs. unfold bkpost. bkstart p s HPI Hbk.
+  all: destruct Hs as [Hs | Hs]; try discriminate Hs.
+  all: unfold Model.spawn; xrun.
+  all: try solve [bkleaf t].
+  all: try xarith.
+Qed.
+
+Lemma stop_bk j s p o t md :
+  PI s p -> bk s p -> R t -> killable s = true -> sx j (Model.stop U pconfs j) s p o t md bkpost.
+Proof.
+  intros HPI Hbk Ht Hs. unfold bkpost. bkstart p s HPI Hbk; try discriminate Hs.
+  all: unfold Model.stop, Model.kill; xrun.
+  all: try solve [bkleaf t].
+  all: try xarith.
+Qed.
+
+Lemma give_up_bk j p o t md :
+  bk BACKOFF p -> sx j (Model.give_up U j) BACKOFF p o t md bkpost.
+Proof.
+  intros Hbk. unfold bkpost. pdestr p. destruct Hbk as [Hb0 _]. pcbv_in Hb0.
+  unfold Model.give_up. xrun. bkleaf t.
+Qed.
+
+Lemma signal_bk j sg s p o t md :
+  PI s p -> bk s p -> in_signallable_states s = true -> sx j (Model.signal U j sg) s p o t md bkpost.
+Proof.
+  intros HPI Hbk Hs. unfold bkpost. bkstart p s HPI Hbk; try discriminate Hs.
+  all: unfold Model.signal; xrun.
+  all: try solve [bkleaf t].
+  all: try xarith.
+Qed.
+
+Lemma rollback_bk j s p o t md :
+  bk s p -> R t -> sx j (Model.rollback_adjust U pconfs j t) s p o t md bkpost.
+Proof.
+  intros Hbk Ht. unfold bkpost. pdestr p. destruct Hbk as [Hb0 Hb1]. pcbv_in Hb0. pcbv_in Hb1.
+  apply sx_tail. apply sx_rollback.
+  destruct s; try (let H := fresh "H" in assert (H := Hb1 eq_refl); clear Hb1; destruct H as [Hb1 Hb2]).
+  all: cbn [adjust_times]; pcbv; padj; xrun.
+  all: try solve [bkleaf t].
+Qed.
+
+Lemma finish_bk j st s p o t md :
+  PI s p -> bk s p -> R t -> pid p <> 0 -> sx j (Model.finish U pconfs j st) s p o t md bkpost.
+Proof.
+  intros HPI Hbk Ht Hp. unfold bkpost. bkstart p s HPI Hbk; pcbv_in Hp; try congruence.
+  all: unfold Model.finish; cbv zeta.
+  all: xstep; apply sx_rollback; cbn [adjust_times]; pcbv; padj.
+  all: xrun.
+  all: try solve [bkleaf t].
+  all: try (exfalso; destruct HPI as (_ & Hk & _); pcbv_in Hk; destruct (Hk eq_refl); discriminate).
+  all: try (exfalso; destruct HPI as (Hk1 & _); pcbv_in Hk1; specialize (Hk1 eq_refl); discriminate).
+  all: try (exfalso; unfold too_quickly in *;
+            match goal with H : (if ?c then _ else _) = true |- _ => destruct c eqn:? end; lia).
+Qed.
+
+(* from the symbolic executor to the global invariant *)
+Lemma bk_of_sx {A} j (m : Model.M A) (Pre : pstate -> proc -> Prop) :
+  (forall s p o t md, PI s p -> bk s p -> R t -> Pre s p -> sx j m s p o t md bkpost) ->
+  xp (BKL U R) (fun w => Pre (sts w j) (procs w j)) m.
+Proof.
+  intros H w a w' HK [Hn HB] HP E.
+  destruct (H _ _ _ _ _ (k_pi w HK j) (HB j) Hn HP w eq_refl eq_refl eq_refl eq_refl eq_refl)
+    as (a2 & w2 & E2 & (f1 & f2 & f3 & f4) & HQ).
+  rewrite E2 in E. inversion E; subst a2 w2. split; [rewrite f1; exact Hn|].
+  intros j'. destruct (Nat.eq_dec j' j) as [-> | Hj]; [exact HQ|]. destruct (f4 j' Hj) as [-> ->]. apply HB.
+Qed.
+
+Lemma BK_emit e w : upper e -> BKL U R w -> BKL U R (set_out (e :: out w) w).
+Proof. intros _ H. exact H. Qed.
+Lemma BK_modw w w' : sts w' = sts w -> procs w' = procs w -> now w' = now w -> out w' = out w -> BKL U R w -> BKL U R w'.
+Proof. unfold BKL. intros -> -> -> _ H. exact H. Qed.
+
+Lemma BK_transition j : xp (BKL U R) (fun _ => True) (Model.transition U pconfs j).
+Proof.
+  intros w a w' HK HX _ E.
+  apply (bk_of_sx j (Model.transition U pconfs j) (fun _ _ => True)) with (w := w) (a := a); auto.
+  intros. apply transition_bk; assumption.
+Qed.
+Lemma BK_stop j s : killable s = true -> xp (BKL U R) (fun w => sts w j = s) (Model.stop U pconfs j).
+Proof.
+  intros Hk w a w' HK HX Hs E.
+  apply (bk_of_sx j (Model.stop U pconfs j) (fun s' _ => s' = s)) with (w := w) (a := a); auto.
+  intros s0 p o t md HPI Hbk Ht ->. apply stop_bk; assumption.
+Qed.
+Lemma BK_give_up j : xp (BKL U R) (fun w => sts w j = BACKOFF) (Model.give_up U j).
+Proof.
+  intros w a w' HK HX Hs E.
+  apply (bk_of_sx j (Model.give_up U j) (fun s' _ => s' = BACKOFF)) with (w := w) (a := a); auto.
+  intros s0 p o t md HPI Hbk Ht ->. apply give_up_bk; assumption.
+Qed.
+Lemma BK_signal j sg s : in_signallable_states s = true -> xp (BKL U R) (fun w => sts w j = s) (Model.signal U j sg).
+Proof.
+  intros Hk w a w' HK HX Hs E.
+  apply (bk_of_sx j (Model.signal U j sg) (fun s' _ => s' = s)) with (w := w) (a := a); auto.
+  intros s0 p o t md HPI Hbk Ht ->. apply signal_bk; assumption.
+Qed.
+Lemma BK_rollback j w0 : xp (BKL U R) (fun w => w = w0) (Model.rollback_adjust U pconfs j (now w0)).
+Proof.
+  intros w a w' HK HX Hw E. subst w0.
+  intros. destruct HX as [Hn HB].
+  destruct (rollback_bk j _ _ (out w) (now w) (mood w) (HB j) Hn w eq_refl eq_refl eq_refl eq_refl eq_refl)
+    as (a2 & w2 & E2 & (f1 & f2 & f3 & f4) & HQ).
+  rewrite E2 in E. inversion E; subst a2 w2. split; [rewrite f1; exact Hn|].
+  intros j'. destruct (Nat.eq_dec j' j) as [-> | Hj]; [exact HQ|]. destruct (f4 j' Hj) as [-> ->]. apply HB.
+Qed.
+Lemma BK_spawn j s : True -> spawnable s = true \/ s = STOPPING -> xp (BKL U R) (fun w => sts w j = s) (Model.spawn U pconfs j).
+Proof.
+  intros _ Hk w a w' HK HX Hs E.
+  apply (bk_of_sx j (Model.spawn U pconfs j) (fun s' _ => s' = s)) with (w := w) (a := a); auto.
+  intros s0 p o t md HPI Hbk Ht ->. apply spawn_bk; assumption.
+Qed.
+
+Lemma BK_reap fuel : xp (BKL U R) (fun _ => True) (Model.reap U pconfs fuel).
+Proof.
+  induction fuel as [|f IH]; intros w a w' HK HX _ E; [inversion E; subst; exact HX|].
+  cbn [Model.reap] in E. unfold bind at 1 in E. unfold getw at 1 in E.
+  destruct (zombies w) as [|[zp st] rest] eqn:Ez; [inversion E; subst; exact HX|].
+  unfold bind at 1 in E. unfold modw at 1 in E. unfold bind at 1 in E. unfold emit at 1 in E.
+  set (w1 := set_out _ _) in E.
+  assert (I1 : inertw w w1) by (subst w1; repeat split; cbn; lia).
+  assert (K1 : K w1) by (eapply K_inert; eassumption).
+  assert (X1 : BKL U R w1) by exact HX.
+  destruct (lookup_hist zp (pidhist w)) as [j|] eqn:EL.
+  - apply lookup_hist_in in EL.
+    destruct (finish_run U pconfs j zp st w1 K1 EL) as (w2 & E2 & Ep0 & K3).
+    unfold bind at 1 in E. rewrite E2 in E. unfold bind at 1 in E. unfold modw at 1 in E.
+    assert (X2 : BKL U R w2).
+    { apply (bk_of_sx j (Model.finish U pconfs j st) (fun _ p => pid p <> 0)) with (w := w1) (a := tt); auto.
+      - intros. apply finish_bk; assumption.
+      - destruct (k_hist w1 K1 zp j EL). lia. }
+    eapply (IH _ a w' K3); [exact X2 | exact Logic.I | exact E].
+  - eapply (IH _ a w' K1); [exact X1 | exact Logic.I | exact E].
+Qed.
+
+Theorem backoff_law_pass o w :
+  K w -> Forall def_ok (pend w) -> R (p_now o) -> (forall j, bk (sts w j) (procs w j)) ->
+  exists w', Model.do_pass U pconfs gconfs o w = (Some tt, w') /\ K w' /\ Forall def_ok (pend w') /\ BKL U R w'.
+Proof.
+  intros HK HP Hn HB.
+  destruct (pass_kx U pconfs gconfs (BKL U R) (fun _ => True) BK_emit BK_modw BK_transition BK_stop BK_give_up
+                    BK_signal BK_rollback BK_reap BK_spawn o w) as (w' & E & K' & X' & P'); auto.
+  - apply Forall_forall. intros a _. apply act_ok_all.
+  - split; [split; [exact Hn | exact HB] | exact HP].
+  - exists w'. auto.
+Qed.
+
+End Backoff.
+
+Section BackoffRun.
+Variable U : Z.
+Variable pconfs : list pconf.
+Variable gconfs : list gconf.
+Notation cf := (Model.cf pconfs).
+Notation run := (Model.run U pconfs gconfs).
+
+(* the clock readings of a script (0 is the reading of the initial world) *)
+Definition readings (ops : list passop) : Z -> Prop := fun t => t = 0 \/ In t (map p_now ops).
+
+Lemma backoff_law_steps ops : forall w (R : Z -> Prop),
+  K w -> Forall def_ok (pend w) -> BKL U R w ->
+  let w' := fold_left (Model.step U pconfs gconfs) ops w in
+  K w' /\ Forall def_ok (pend w') /\ BKL U (fun t => R t \/ In t (map p_now ops)) w'.
+Proof.
+  induction ops as [|o ops IH]; intros w R HK HP HX; cbn [fold_left map].
+  - split; [exact HK | split; [exact HP|]]. eapply BKL_mono; [| |exact HX]; [tauto | left; apply HX].
+  - set (R1 := fun t => R t \/ t = p_now o).
+    assert (H1 : K (Model.step U pconfs gconfs w o) /\ Forall def_ok (pend (Model.step U pconfs gconfs w o)) /\
+                 BKL U R1 (Model.step U pconfs gconfs w o)).
+    { unfold Model.step. destruct (crashed w || exited w).
+      - split; [exact HK | split; [exact HP|]]. eapply BKL_mono; [| |exact HX]; unfold R1; [tauto | left; apply HX].
+      - destruct (backoff_law_pass U pconfs gconfs R1 o w HK HP) as (w' & E & K' & P' & X').
+        + right. reflexivity.
+        + intros j. destruct HX as [_ HB]. destruct (HB j) as [a b]. split; [exact a|]. intros Hs. destruct (b Hs). unfold R1. auto.
+        + rewrite E. auto. }
+    destruct H1 as (K1 & P1 & X1). destruct (IH _ R1 K1 P1 X1) as (K2 & P2 & X2).
+    split; [exact K2 | split; [exact P2|]]. eapply BKL_mono; [| |exact X2].
+    + unfold R1. cbn. intros t0 [[H|H]|H]; [left; exact H | right; left; symmetry; exact H | right; right; exact H].
+    + destruct X2 as [Hn _]. unfold R1 in Hn. cbn.
+      destruct Hn as [[H|H]|H]; [left; exact H | right; left; symmetry; exact H | right; right; exact H].
+Qed.
+
+(* A3: the retry counter and the retry delay at every boundary of every run *)
+Theorem backoff_counter_law ops i :
+  let w := run ops in
+  0 <= backoff (procs w i) /\
+  (sts w i = BACKOFF ->
+   1 <= backoff (procs w i) /\
+   exists t, readings ops t /\ delay (procs w i) = t + backoff (procs w i) * U).
+Proof.
+  cbv zeta. unfold Model.run.
+  destruct (backoff_law_steps ops world0 (fun t => t = 0)) as (_ & _ & [_ HB]).
+  - apply K_world0.
+  - constructor.
+  - split; [reflexivity|]. intros j. split; [cbn; lia | discriminate].
+  - destruct (HB i) as [a b]. split; [exact a|]. intros Hs. destruct (b Hs) as [c d]. split; [exact c|].
+    exists (delay (procs (fold_left (Model.step U pconfs gconfs) ops world0) i)
+            - backoff (procs (fold_left (Model.step U pconfs gconfs) ops world0) i) * U).
+    split; [exact d | lia].
+Qed.
+
+(* hence: a retry (retry_due at reading `t_now`) happens strictly more than `backoff` seconds after a genuine
+   reading t, the (rollback-adjusted) reading of the last failure; and only while retries are left *)
+Corollary retry_not_before_backoff_seconds ops i t_now :
+  let w := run ops in
+  sts w i = BACKOFF -> retry_due (cf i) (procs w i) t_now = true ->
+  backoff (procs w i) <= c_startretries (cf i) /\
+  exists t, readings ops t /\ t_now - t > backoff (procs w i) * U /\ 1 <= backoff (procs w i).
+Proof.
+  cbv zeta. intros Hs Hr. destruct (backoff_counter_law ops i) as [_ H]. destruct (H Hs) as (Hb & t & Ht & Ed).
+  unfold retry_due in Hr. split; [lia|]. exists t. split; [exact Ht|]. split; [lia | exact Hb].
+Qed.
+
+End BackoffRun.
+
+(* ====================================================================== *)
+(* Examples: the hypotheses of the theorems above are satisfiable on concrete runs *)
+Definition ex_nf : pconf := mkConf 1 0 10 15 999 true ARUnexpected [0] false false CmdNotFound 0%nat.
+Definition ex_nf3 : pconf := mkConf 1 3 10 15 999 true ARUnexpected [0] false false CmdNotFound 0%nat.
+Definition ex_ok : pconf := mkConf 1 3 10 15 999 true ARUnexpected [0] false false CmdOk 0%nat.
+Definition ex_g : list gconf := [mkG 999 [0%nat]].
+
 (* hypotheses satisfiable: a run with two forks (autostart, then restart after an unexpected exit) *)
 Example fork_only_from_spawn_states_example :
   let pc := [mkConf 1 3 10 15 999 true ARUnexpected [0] false false CmdOk 0%nat] in
@@ -1514,3 +1800,75 @@ Example fork_only_from_spawn_states_example :
   let w := Model.run 10 pc gc [mkPass 5 [] [0] []; mkPass 30 [AExit 0 1] [0] []; mkPass 31 [] [0] []] in
   exists l r, out w = l ++ EFork 0%nat 1001 :: EState 0%nat EXITED STARTING 0 true :: r.
 Proof. vm_compute. eexists [], _. reflexivity. Qed.
+
+(* A2: a command that cannot be found, startretries = 0: BACKOFF with one failure counted at the first
+   boundary; the next transition gives up *)
+Example fatal_only_when_retries_exhausted_example :
+  let w := Model.run 10 [ex_nf] ex_g [mkPass 5 [] [] []] in
+  sts w 0%nat = BACKOFF /\ pid (procs w 0%nat) = 0 /\ mood w >= 1 /\
+  give_up_due (Model.cf [ex_nf] 0%nat) (procs w 0%nat) = true /\
+  out (snd (Model.transition 10 [ex_nf] 0%nat w)) = EState 0%nat BACKOFF FATAL 0 true :: out w.
+Proof. vm_compute. repeat split; discriminate. Qed.
+
+(* A4: an unexpected exit (code 1, exitcodes = [0]) of a RUNNING process: EXITED at the boundary, restart due *)
+Example autorestart_decision_example :
+  let w := Model.run 10 [ex_ok] ex_g [mkPass 5 [] [0] []; mkPass 30 [AExit 0 1] [] []] in
+  sts w 0%nat = EXITED /\ pid (procs w 0%nat) = 0 /\ mood w >= 1 /\
+  should_restart (Model.cf [ex_ok] 0%nat) (exitstatus (procs w 0%nat)) = true.
+Proof. vm_compute. repeat split; discriminate. Qed.
+
+Example autostart_decision_example :
+  let w := Model.run 10 [ex_ok] ex_g [] in
+  sts w 0%nat = STOPPED /\ pid (procs w 0%nat) = 0 /\ mood w >= 1 /\
+  autostart_due (Model.cf [ex_ok] 0%nat) (procs w 0%nat) = true.
+Proof. vm_compute. repeat split; discriminate. Qed.
+
+(* stopped by the administrator after having run: STOPPED with laststart = 5 *)
+Example stopped_after_start_stays_down_example :
+  let w := Model.run 10 [ex_ok] ex_g [mkPass 5 [] [0] []; mkPass 30 [ARpc 1 (RStop 0%nat false)] [] [0]] in
+  sts w 0%nat = STOPPED /\ pid (procs w 0%nat) = 0 /\ laststart (procs w 0%nat) <> 0 /\
+  admin_stop (procs w 0%nat) = true.
+Proof. vm_compute. repeat split; discriminate. Qed.
+
+Example fatal_stays_down_example :
+  let w := Model.run 10 [ex_nf] ex_g [mkPass 5 [] [] []; mkPass 6 [] [] []] in sts w 0%nat = FATAL.
+Proof. vm_compute. reflexivity. Qed.
+
+Example nothing_started_while_shutting_down_example :
+  let w := Model.run 10 [ex_ok] ex_g [mkPass 5 [] [0] []; mkPass 30 [AExit 0 1; ASignal 15] [] []] in
+  sts w 0%nat = EXITED /\ mood w < 1 /\ should_restart (Model.cf [ex_ok] 0%nat) (exitstatus (procs w 0%nat)) = true.
+Proof. vm_compute. repeat split. Qed.
+
+(* A3: a boundary with a process in BACKOFF: one failure, delay = 5 + 1 * U, 5 a reading of the script *)
+Example backoff_counter_law_example :
+  let ops := [mkPass 5 [] [] []] in
+  let w := Model.run 10 [ex_nf3] ex_g ops in
+  sts w 0%nat = BACKOFF /\ backoff (procs w 0%nat) = 1 /\ delay (procs w 0%nat) = 5 + 1 * 10 /\ readings ops 5.
+Proof. vm_compute. repeat split. right. left. reflexivity. Qed.
+
+(* A5: a FATAL process and a pass with requests that are not start requests for it *)
+Example no_spontaneous_start_run_example :
+  let ops := [mkPass 5 [] [] []; mkPass 6 [] [] []] in
+  let o := mkPass 40 [ARpc 1 (RStop 0%nat false); ARpc 2 (RSignal 0%nat 10 true); APoll; ARpc 3 (RStopAll true)] [0] [0] in
+  sts (Model.run 10 [ex_nf] ex_g ops) 0%nat = FATAL /\ no_start_for [ex_nf] ex_g 0%nat o.
+Proof. split; [vm_compute; reflexivity|]. repeat constructor. Qed.
+
+(* ---------- a finding about the model (and the code it transcribes): `laststart` can become 0 again.
+   In RUNNING, a clock reading t with laststart < t < laststart + startsecs (possible only after the clock
+   went back) sets laststart := t - startsecs (process.py, _check_and_adjust_for_system_clock_rollback);
+   at the reading t = startsecs this is 0, the value that means "never started": after an administrative
+   stop the process is then autostarted again.  Readings are epoch seconds in practice, so t = startsecs
+   does not happen; the statement "a process that was started once has laststart <> 0" therefore needs
+   the hypothesis that every reading exceeds startsecs (p_now > 0 is not enough). *)
+Example laststart_can_return_to_zero :
+  let ops := [mkPass 5 [] [0] []; mkPass 20 [] [] []; mkPass 10 [] [] []] in
+  let w := Model.run 10 [ex_ok] ex_g ops in
+  Forall (fun o => p_now o > 0) ops /\ sts w 0%nat = RUNNING /\ laststart (procs w 0%nat) = 0.
+Proof. split; [repeat constructor|]. vm_compute. split; reflexivity. Qed.
+
+Example stopped_process_respawned_after_rollback :
+  let ops := [mkPass 5 [] [0] []; mkPass 20 [] [] []; mkPass 10 [] [] [];
+              mkPass 11 [ARpc 1 (RStop 0%nat false)] [0] [0]] in
+  let w := Model.run 10 [ex_ok] ex_g ops in
+  In (EAns 1 0) (out w) /\ sts w 0%nat = STARTING /\ pid (procs w 0%nat) = 1001.
+Proof. vm_compute. repeat split. auto 10. Qed.
